@@ -51,6 +51,18 @@ fn workload(rng: &mut Rng, file_size: u64) -> Vec<Op> {
             ops.push(Op::Restart);
             continue;
         }
+        // frame-commensurate batches: a frame payload is 32761 = 181 * 181 bytes, a serialized
+        // record is 12 + len bytes; with 169-byte (or 32749-byte) records a batch that loses
+        // exactly one full frame still parses as a whole number of records - the shape that
+        // turns a reader slip into a batch with a HOLE rather than a dropped batch
+        if rng.chance(1, 10) {
+            let (n, l) = if rng.chance(3, 4) { (rng.usize(400, 700), 169usize) } else { (rng.usize(3, 5), 32_749usize) };
+            let pos = None;
+            let start = next[&q];
+            next.insert(q.clone(), start + n as u64);
+            ops.push(Op::Append { q, pos, lens: vec![l; n], chained: false });
+            continue;
+        }
         let nrec = match rng.below(10) {
             0..=2 => rng.usize(1, 3),
             3..=6 => rng.usize(4, 16),
@@ -145,7 +157,7 @@ impl Monitor for C12 {
         "fault_enumeration"
     }
     fn num_cases(&self, tier: Tier) -> u64 {
-        tier.pick(800, 16_000)
+        tier.pick(1_600, 24_000)
     }
     fn floors(&self, tier: Tier) -> Vec<(&'static str, u64)> {
         vec![
@@ -161,7 +173,7 @@ impl Monitor for C12 {
         ]
     }
     fn rule(&self) -> String {
-        "case = one focused history (1..2 queues, 4..14 batch appends of 1..64 self-identifying records totalling 16 B .. 3 WAL files, interleaved truncations of the same queue, no deletions) under Always(Flush); crash leg: every file-system effect boundary and frame-relative byte cuts of every write; damage leg: every frame written by a batch x {payload bit, payload garbage, checksum, length byte, type byte}; evaluation = one recovery; oracle over batch boundaries known to the harness: each batch is recovered as nothing, everything, or a hole-free suffix ending at its last record whose missing head is at or below a truncate position issued on that queue; distinct_nontrivial = distinct (case, crash point or damaged frame+kind) inside or on a batch of >= 2 records".into()
+        "case = one focused history (1..2 queues, 4..14 batch appends of 1..64 self-identifying records totalling 16 B .. 3 WAL files, plus frame-commensurate batches of 400..700 records of 169 bytes / 3..5 records of 32749 bytes (12+len divides the 32761-byte frame payload), interleaved truncations of the same queue, no deletions) under Always(Flush); crash leg: every file-system effect boundary and frame-relative byte cuts of every write; damage leg: every frame written by a batch x {payload bit, payload garbage, checksum, length byte, type byte}; evaluation = one recovery; oracle over batch boundaries known to the harness: each batch is recovered as nothing, everything, or a hole-free suffix ending at its last record whose missing head is at or below a truncate position issued on that queue; distinct_nontrivial = distinct (case, crash point or damaged frame+kind) inside or on a batch of >= 2 records".into()
     }
     fn assumptions(&self) -> Vec<String> {
         vec!["records are >= 16 bytes and carry their (op, index, length) identity, positions are never re-used (no deletions in this workload), so membership of a recovered record in a batch is unambiguous".into()]
